@@ -6,7 +6,11 @@ EXTENDS PathNorm, Json
 
 N == @@N@@
 
-Inputs == SeqsUpTo(Tokens, N)
+\* second family: deeper paths over whole segments (so that ".." after ".." after real segments,
+\* e.g. /x/x/../.., is within reach), length 0..M
+M == @@M@@
+SegTokens == { <<"/">>, <<"x">>, <<".">>, <<".", ".">>, <<"%","2","e">> }
+Inputs == SeqsUpTo(Tokens, N) \cup SeqsUpTo(SegTokens, M)
 
 Vec(ts) == LET p == TokBytes(ts) IN
   [ in      |-> p,
